@@ -116,6 +116,14 @@ Theorem C13_fraction_figures : forall env inp x lm j (g : gl) ei en lotlab,
      det_field env inp x lm j d L_none F_lot_note = PStr (note (S li) ln (g_amt g) (in_crypto_balance_change l) (ac_name x))).
 Proof. exact fraction_figures. Qed.
 
+(** [writes_at .. = [w]] (the theorems above) determines what the sheet finally holds in that cell *)
+Theorem C13_final_content_in_out : forall env inp x r c w, 0 <= c < 1024 ->
+  writes_at (sw_writes (inout_sheet env inp x)) r c = [w] -> cell_at (sw_writes (inout_sheet env inp x)) r c = cw_val w.
+Proof. exact inout_final. Qed.
+Theorem C13_final_content_tax : forall env inp x lm r c w, 0 <= c < 1024 ->
+  writes_at (sw_writes (tax_sheet env inp x lm)) r c = [w] -> cell_at (sw_writes (tax_sheet env inp x lm)) r c = cw_val w.
+Proof. exact tax_final. Qed.
+
 (** Summary sheet: one line per yearly line of every asset, in asset order *)
 Theorem C13_summary_line_row : forall env x ym r k y col lk f,
   nth_error (cd_yearly (ac_c x)) k = Some y -> In (col, lk, f) gen_full_cols_sum ->
@@ -203,6 +211,8 @@ Print Assumptions C13_holder_total_row.
 Print Assumptions C13_average_price_cell.
 Print Assumptions C13_fraction_row.
 Print Assumptions C13_fraction_figures.
+Print Assumptions C13_final_content_in_out.
+Print Assumptions C13_final_content_tax.
 Print Assumptions C13_summary_line_row.
 Print Assumptions C13_report_shape.
 Print Assumptions C13_in_out_sheet_capacity.
